@@ -184,6 +184,16 @@ fn function_define(rng: &mut Rng) -> String {
             1 => rng.pick(MACROS).to_string(),
             2 => format!("( {} + {} )", rng.pick(&leaves), rng.pick(&leaves)),
             3 => invocation(rng, k - 1, &leaves, 2),
+            _ if k > 0 && rng.chance(1, 2) => {
+                // its own invocation as the argument of a lower macro
+                let (lower, la) = FUNCS[rng.range(1, k as u64) as usize];
+                let own = format!("{name}({})", params.join(","));
+                let mut args: Vec<String> = (0..la).map(|_| rng.pick(&leaves).clone()).collect();
+                if la > 0 {
+                    args[0] = own.clone();
+                }
+                if lower == name { own } else { format!("{lower}({})", args.join(",")) }
+            }
             _ => format!("{name}({})", params.join(",")),
         };
         body.push(e);
@@ -518,6 +528,26 @@ pub fn generate(rng: &mut Rng, mode: Mode, form: Form) -> Graph {
                             1 => rng.pick(MACROS).to_string(),
                             _ => String::new(),
                         },
+                    };
+                    // rarely the macro hands its own name (or the name of a macro that refers
+                    // back to it) to a function-like macro: replacement must still terminate
+                    let body = if rng.chance(1, 12) {
+                        let (f, arity) = FUNCS[rng.range(1, FUNCS.len() as u64 - 1) as usize];
+                        let mut args: Vec<String> = (0..arity)
+                            .map(|_| match rng.below(3) {
+                                0 => rng.pick(MACROS).to_string(),
+                                1 => rng.range(1, 9).to_string(),
+                                _ => rng.pick(PLAIN).to_string(),
+                            })
+                            .collect();
+                        let at = rng.below(arity as u64) as usize;
+                        args[at] = m.to_string();
+                        match form {
+                            Form::Pre if rng.chance(1, 2) => format!("{} {f}({})", rng.range(1, 9), args.join(",")),
+                            _ => format!("{f}({})", args.join(", ")),
+                        }
+                    } else {
+                        body
                     };
                     lines.push(hash(rng, format!("#define {m} {body}").trim_end()));
                 }
